@@ -33,8 +33,11 @@ package cmd
 //@   safe
 //@ func ti/cmd.isParentClass
 //@   safe
+//@   terminates
+//@   witness dec:rec#0 "class A < B\nend\nclass B < A\nend\nx = A.new\nx.\n" args "--suggest --row=6"
 //@ func ti/cmd.PrintSuggestionsForLsp
 //@   safe
+//@   inline 10 2
 //@ func ti/cmd.PrintHover
 //@   safe
 //@ func ti/cmd.PrintAllDefinitionsForLsp
